@@ -63,6 +63,14 @@ type Unit struct {
 }
 
 func UnitFromProto(protoUnit *pb.PropellerUnit) (Unit, error) {
+	// The unit comes from the network: reject what cannot be converted instead of panicking.
+	if len(protoUnit.GetShards().GetShards()) == 0 {
+		return Unit{}, errors.New("unit has no shards")
+	}
+	if len(protoUnit.GetMerkleRoot().GetElements()) != len(MessageRoot{}) {
+		return Unit{}, errors.New("unit has a merkle root of the wrong length")
+	}
+
 	shards := make(ShardData, len(protoUnit.Shards.GetShards()))
 	for i, s := range protoUnit.Shards.GetShards() {
 		shards[i] = Shard(s.Data)
